@@ -398,7 +398,7 @@ func genC09(t *rapid.T) C09Case {
 	var c C09Case
 	np := genCount(t, "pods", maxPods, podEdges)
 	nc := genCount(t, "ctrs", maxCtrs, ctrEdges)
-	mode := rapid.SampledFrom([]string{"fill", "fill", "fill", "fill", "fill", "fill", "free", "free", "small"}).Draw(t, "mode")
+	mode := rapid.SampledFrom([]string{"fill", "fill", "fill", "fill", "fill", "fill", "floor", "floor", "free", "free", "small"}).Draw(t, "mode")
 	switch mode {
 	case "small": // class (a): everything fits one message
 		total := rapid.IntRange(0, 3<<20).Draw(t, "total")
@@ -431,6 +431,16 @@ func genC09(t *rapid.T) C09Case {
 			c.Pods = genList(t, "pods", np, maxPods, total/100*share, heavyD)
 			c.Ctrs = genList(t, "ctrs", nc, maxCtrs, total/100*(100-share), heavyD)
 		}
+	case "floor": // 9..24 equal objects just too big for one message: the chunk floor decides
+		n := rapid.IntRange(minObjs+1, 3*minObjs).Draw(t, "floor-n")
+		np = rapid.IntRange(0, n).Draw(t, "floor-pods")
+		nc = n - np
+		w := min(np, minObjs) + min(nc, minObjs) // objects in the largest message at the floor
+		d := rapid.IntRange(w, n).Draw(t, "floor-div")
+		slack := rapid.SampledFrom(nearSlack).Draw(t, "floor-slack")
+		size := (msgMax-slack)/d - 64
+		c.Pods = ListPlan{N: np, Dist: "floor", Base: size, Field: rapid.IntRange(0, 3).Draw(t, "pods-field")}
+		c.Ctrs = ListPlan{N: nc, Dist: "floor", Base: size, Field: rapid.IntRange(0, 3).Draw(t, "ctrs-field")}
 	default: // anything
 		total := rapid.IntRange(0, maxTotal).Draw(t, "total")
 		share := rapid.IntRange(0, 100).Draw(t, "pod-share")
